@@ -205,6 +205,9 @@ def make_job(rng, kind_counts, tier):
         elif rng.random() < 0.06:
             conds = [("=", e, ("+", e, G.num(G.coef(rng, "int"))))]
             kind = "unsat"
+        elif rng.random() < 0.08:
+            conds = [G.decimal_identity(rng, vocab)]
+            kind = "decimal-identity"
     else:
         n_eq = rng.choice([0, 1, 1, 2])
         kind = "%d-equalities" % n_eq
@@ -219,6 +222,9 @@ def make_job(rng, kind_counts, tier):
             t = G.poly(rng, vocab, 2)
             conds.append(("=", t, t))        # an identity, to be omitted
             kind += "+identity"
+        if rng.random() < 0.06:
+            conds.append(G.decimal_identity(rng, vocab))   # an identity only in exact arithmetic (D21m / D21n)
+            kind += "+decimal-identity"
         rng.shuffle(conds)
     # expressions with a non-constant divisor: the checker has no rounding tolerance for them, so they are
     # generated with integer coefficients and enough digits to print the constants exactly
